@@ -845,8 +845,11 @@ def build(tier='quick', seed=0):
             [V('greater_or_equal', '3.0', 3.0, 'lit')],
             [V('less_or_equal', '3.0', 3.0, 'lit')],
         ]
+        big = ('1e32', f32_round(1e32)) if t == 'f32' else ('1e300', 1e300)
         for bk, bt, bv in (('greater_or_equal', '0.0', 0.0), ('greater', '1.5', 1.5), ('less_or_equal', '0.0', 0.0), ('less', '-1.5', -1.5),
-                           ('greater_or_equal', '1e30', 1e30), ('less', '100', 100.0)):
+                           ('greater_or_equal', '1e30', 1e30), ('less', '100', 100.0),
+                           # bounds of a magnitude where |basic| + bound leaves the finite range
+                           ('greater_or_equal', big[0], big[1]), ('less_or_equal', '-' + big[0], -big[1]), ('greater', big[0], big[1])):
             arb_cases.append([V(bk, bt, bv, 'lit'), V('finite')])
             arb_cases.append([V('finite'), V(bk, bt, bv, 'lit')])
         # ranges whose end points are not exactly representable / where lower + 1.0 * (upper - lower) rounds above upper
@@ -861,6 +864,9 @@ def build(tier='quick', seed=0):
             arb_cases.append([V('greater_or_equal', '36.6', 36.6, 'lit'), V('less_or_equal', '36.60000000000001', 36.60000000000001, 'lit')])
         else:
             arb_cases.append([V('greater_or_equal', '36.6', rr(36.6), 'lit'), V('less_or_equal', '36.600006', rr(36.600006), 'lit')])
+        # two-sided with an infinite end point: the scaling `lower + t * (upper - lower)` has an infinite range
+        arb_cases.append([V('greater_or_equal', '0.0', 0.0, 'lit'), V('less_or_equal', f'{t}::INFINITY', float('inf'), 'expr')])
+        arb_cases.append([V('greater', f'{t}::NEG_INFINITY', float('-inf'), 'expr'), V('less', '0.0', 0.0, 'lit'), V('finite')])
         for vs in arb_cases:
             full.append(decl('float', t, validators=vs, derives=['Debug', 'Arbitrary'], tags=['arb']))
         full.append(decl('float', t, derives=['Debug', 'Arbitrary'], tags=['arb']))
